@@ -531,14 +531,14 @@ theorem C01_other_messages_keep_reserve (h h' : HubSt) (e : HubEnv) (sender : Ad
 theorem C01_funded_hub_step (h h' : HubSt) (e : HubEnv) (sender : Addr) (funds : List (Denom × Nat))
     (m : HubMsg) (ms : List Msg) (inv : ClaimInv h) (hl : h.legacy = []) (hF : h.Funded)
     (hP : h.prevHubBalance ≤ e.hubBalance)
-    (hs : m = .withdrawUnbonded → h.GroupSafe (e.now - h.unbonding) e.hubBalance)
+    (hs : m = .withdrawUnbonded → h.unbonding ≤ e.now → h.GroupSafe (e.now - h.unbonding) e.hubBalance)
     (hx : hubExec h e sender funds m = .ok (h', ms)) : h'.Funded := by
   by_cases hm : m = .withdrawUnbonded
   · subst hm
     simp only [hubExec] at hx
     split at hx
     · cases hx
-    · exact C01_withdraw_keeps_funded h h' e sender ms inv hF hP (hs rfl) hx
+    · exact C01_withdraw_keeps_funded h h' e sender ms inv hF hP (hs rfl (withdraw_spec h h' e sender ms hx).1) hx
   · have r := C01_other_messages_keep_reserve h h' e sender funds m ms inv hl hm hx
     unfold Funded at hF ⊢
     rw [r.1, r.2]; exact hF
@@ -550,7 +550,7 @@ theorem C01_funded_hub_step (h h' : HubSt) (e : HubEnv) (sender : Addr) (funds :
     side condition of `C01_release_side_alloc_le_arrived_partial` -/
 def SafeTop (s : Sys) (m : Msg) : Prop :=
   ∀ sender funds s1, m = .wasm sender hubA (.hub .withdrawUnbonded) funds →
-    s.moveFunds sender hubA funds = .ok s1 →
+    s.moveFunds sender hubA funds = .ok s1 → s.hub.unbonding ≤ s1.chain.time →
     s.hub.GroupSafe (s1.chain.time - s.hub.unbonding) (s1.chain.bank hubA 0)
 
 /-- carried from message to message inside a transaction -/
@@ -604,11 +604,11 @@ theorem FundQ.step (s s' : Sys) (m : Msg) (rest subs : List Msg) (inv : FundQ s 
     refine ⟨hf, c7.1, c7.2, ?_⟩
     exact C01_funded_hub_step s.hub s'.hub s1.hubEnv sender funds hm subs inv.claims inv.legacy inv.funded
       (by show s.hub.prevHubBalance ≤ s1.chain.bank hubA 0; omega)
-      (fun e => by subst e; exact hsafe sender funds s1 heq hmv) hx'
+      (fun e hu => by subst e; exact hsafe sender funds s1 heq hmv hu) hx'
 
 /-- a message that is not a WithdrawUnbonded needs no side condition -/
 theorem SafeTop.of_noWd (s : Sys) (m : Msg) (h : isHubWd m = false) : SafeTop s m := by
-  intro sender funds s1 heq _
+  intro sender funds s1 heq _ _
   subst heq
   simp [isHubWd] at h
 
